@@ -1,12 +1,15 @@
 #!/bin/sh
-# tools/try_seed.sh <patch.diff> <Cxx> [tier]  : apply a seeded change to /repo, run the check, undo the change
-P="$1"; C="$2"; T="${3:-quick}"
-cd /repo && git diff --quiet || { echo "/repo is dirty"; exit 9; }
-trap 'git -C /repo checkout -- .' EXIT INT TERM
-git -C /repo apply "$P" || { echo "patch does not apply"; exit 9; }
-cd /verif && timeout 1500 ./check "$C" --tier "$T" > /tmp/try_seed.out 2>&1; RC=$?
-git -C /repo checkout -- . 
-grep -E "^VIOLATION|^KNOWN|MACHINERY|tier=" /tmp/try_seed.out | cut -c1-230 | head -8
+# tools/try_seed.sh <patch.diff> <Cxx> [tier]
+# Runs a check against a seeded change WITHOUT touching /repo while builders share it: the patch is
+# applied in a throw-away worktree of /repo's HEAD and the check is pointed at it with VERIF_REPO.
+# (Equivalent to: git -C /repo apply <patch>; ./check Cxx; git -C /repo checkout -- .)
+P="$(readlink -f "$1")"; C="$2"; T="${3:-quick}"
+WT="/tmp/seedrun-$$"
+git -C /repo worktree add -q --detach "$WT" HEAD || exit 9
+trap 'git -C /repo worktree remove --force "$WT" >/dev/null 2>&1' EXIT INT TERM
+git -C "$WT" apply "$P" || { echo "patch does not apply"; exit 9; }
+cd /verif && VERIF_REPO="$WT" timeout 2400 ./check "$C" --tier "$T" > /tmp/try_seed.$$.out 2>&1; RC=$?
+grep -E "^VIOLATION|MACHINERY|tier=" /tmp/try_seed.$$.out | cut -c1-230 | head -8
 echo "exit=$RC"
-rm -f /verif/replays/$C-*.json
+rm -f /tmp/try_seed.$$.out /verif/replays/$C-*.json
 exit $RC
